@@ -370,6 +370,119 @@ fn lattice_sub(name: &str, cfg: &Cfg, bytewise: bool) -> Sub {
 }
 
 // ---------------------------------------------------------------------------------------------
+// ZMTP/2.0 peer: gated script x delivery lattice (mutual-wait detection)
+// ---------------------------------------------------------------------------------------------
+
+#[derive(Clone, Copy, Debug, PartialEq, Eq, Hash)]
+enum Gate {
+  /// an old v2-only peer: writes its whole greeting + identity at once
+  Eager,
+  /// libzmq-style staged peer: signature; revision after our signature; the rest after our revision
+  Staged,
+  /// signature + revision together; socket type and identity only after it has seen our revision
+  SigRevThenWait,
+  /// signature; revision + socket type after our signature; identity after our revision
+  SigThenRevType,
+}
+
+/// How many bytes of the peer stream are available once the engine has sent `ours` bytes.
+fn available(g: Gate, ours: usize, total: usize) -> usize {
+  match g {
+    Gate::Eager => total,
+    Gate::Staged => {
+      if ours >= 11 {
+        total
+      } else if ours >= 10 {
+        11
+      } else {
+        10
+      }
+    }
+    Gate::SigRevThenWait => {
+      if ours >= 11 {
+        total
+      } else {
+        11
+      }
+    }
+    Gate::SigThenRevType => {
+      if ours >= 11 {
+        total
+      } else if ours >= 10 {
+        12
+      } else {
+        10
+      }
+    }
+  }
+}
+
+fn lattice_v2_sub(local: &'static str, peer: &'static str, is_server: bool, gate: Gate) -> Sub {
+  let mut sub = Sub::new(&format!("lattice-v2:{}-vs-{}:{}:{:?}", local, peer, if is_server { "listener" } else { "connector" }, gate), "E1");
+  sub.rule = "state = bytes of a gated ZMTP/2.0 peer script delivered to one real engine (the peer releases later parts of its greeting only after it has seen our signature / revision); transitions = deliver {1, to next boundary, all available}; oracle: the engine completes as ZMTP/2.0 with the peer's type and identity, and never reaches a state where the peer is waiting for us while we wait for the peer".into();
+  let code = v2_code(peer).unwrap();
+  let mut script = v2_script(code, b"peer");
+  // followed by one data frame
+  script.extend_from_slice(&[0x00, 0x02, b'h', b'i']);
+  let total = script.len();
+  let bounds = [10usize, 11, 12, 18, total];
+  sub.bounds = json!({"script_bytes": total, "gate": format!("{:?}", gate)});
+  let script2 = script.clone();
+  bfs(&mut sub, 10_000, 1_000_000, move |hist: &[usize]| {
+    let sp = spec(local, rzmq::verif::engine::Mech::Null);
+    let r = mc_core::catch(|| {
+      let mut s = Side::from_spec(is_server, &sp);
+      let mut k = 0;
+      for &n in hist {
+        s.feed(&script2[k..k + n]);
+        k += n;
+      }
+      (s, k)
+    });
+    let (s, k) = match r {
+      Ok(x) => x,
+      Err(msg) => return Visit { key: (usize::MAX, hist.len()), enabled: vec![], nontrivial: true, outcome: 0, violations: vec![("panic".into(), mc_core::loc_of(&msg), msg)] },
+    };
+    let mut violations = vec![];
+    let avail = available(gate, s.sent.len(), total);
+    let class = format!("v2:{:?}", gate);
+    if s.errored() {
+      violations.push(("compatible-pair-failed".into(), class.clone(), format!("after {} bytes: {:?}", k, s.first_error())));
+    }
+    let mut enabled = vec![];
+    if !s.errored() && k < avail {
+      let nb = bounds.iter().copied().find(|b| *b > k).unwrap_or(total).min(avail) - k;
+      let mut ns = vec![1, nb, avail - k];
+      ns.sort_unstable();
+      ns.dedup();
+      enabled = ns.into_iter().filter(|n| *n >= 1 && k + n <= avail).collect();
+    }
+    if !s.errored() && k == avail && k < total {
+      violations.push(("stuck-nonterminal".into(), class.clone(), format!("mutual wait: engine has sent {} bytes and waits; the peer has delivered {} of {} bytes and waits for more of our greeting", s.sent.len(), k, total)));
+    }
+    if k == total && !s.errored() {
+      match s.completed() {
+        Some(Ev::Complete { identity, socket_type }) => {
+          if socket_type.as_deref() != Some(peer) || identity.as_deref() != Some(&b"peer"[..]) || s.eng.verif_version() != Some(ZmtpVersion::V2) {
+            violations.push(("disagree-socket-type".into(), class.clone(), format!("type {:?} identity {:?} version {:?}", socket_type, identity, s.eng.verif_version())));
+          }
+          if s.delivered().len() != 1 {
+            violations.push(("data-after-handshake-lost".into(), class.clone(), format!("delivered {}", s.delivered().len())));
+          }
+          // our own v2 greeting must be exactly signature + revision + type + identity frame
+          if s.sent.len() < 12 || s.sent[10] != 3 && s.sent[10] != 1 {
+            violations.push(("own-greeting-malformed".into(), class.clone(), format!("we sent {}", hex(&s.sent))));
+          }
+        }
+        _ => violations.push(("compatible-pair-incomplete".into(), class.clone(), format!("all {} bytes delivered, phase {:?}", total, s.phase()))),
+      }
+    }
+    Visit { key: (k, s.sent.len()), enabled, nontrivial: k >= 10, outcome: mc_core::digest(&(k, s.sent.len(), format!("{:?}", s.phase()))), violations }
+  });
+  sub
+}
+
+// ---------------------------------------------------------------------------------------------
 // Verdict tables
 // ---------------------------------------------------------------------------------------------
 
@@ -526,6 +639,14 @@ pub fn run(tier: Tier) -> Report {
   }
   for (name, cfg, bytewise) in lattices {
     rep.add(lattice_sub(name, &cfg, bytewise));
+  }
+  for gate in [Gate::Eager, Gate::Staged, Gate::SigRevThenWait, Gate::SigThenRevType] {
+    rep.add(lattice_v2_sub("PULL", "PUSH", true, gate));
+    rep.add(lattice_v2_sub("DEALER", "ROUTER", false, gate));
+    if tier == Tier::Thorough {
+      rep.add(lattice_v2_sub("ROUTER", "DEALER", true, gate));
+      rep.add(lattice_v2_sub("SUB", "PUB", false, gate));
+    }
   }
   rep
 }
